@@ -203,8 +203,8 @@ def run_c15(pid, tier):
                 fh.write(json.dumps(c) + "\n")
         extra = []
         if i == 0:
-            # (one aggregate over two small countries with nothing stubbed)
-            json.dump(dict(options=presets.all_presets()["net_nuclear_winter"], countries=["DJI", "MUS"]), open(cf + "_real.json", "w"))
+            # (one aggregate with nothing stubbed: two small countries and the two Koreas, whose names share their last word)
+            json.dump(dict(options=presets.all_presets()["net_nuclear_winter"], countries=["DJI", "MUS", "KOR", "PRK"]), open(cf + "_real.json", "w"))
             extra = [cf + "_real.json"]
         procs.append(subprocess.Popen([C.PY, "-m", "harness.agg_replay", cf + str(i), rf + str(i)] + extra, cwd=C.scratch_repo(), env=C.worker_env(),
                                       stdout=subprocess.DEVNULL, stderr=subprocess.PIPE, text=True))
@@ -224,7 +224,7 @@ def run_c15(pid, tier):
     out.sample(dict(aggregate_case=cases[len(cases) // 2]))
     out.assumptions = ["run_optimizer_for_country is stubbed by the harness (returns the prescribed fraction), the country table is the real rows of "
                        "ARG, DJI, NZL, USA, MUS, SWT with prescribed populations; a list mixing x and !x runs exactly the plain entries; one aggregate "
-                       "(DJI, MUS, nuclear winter) is run with nothing stubbed, results returned and every table saved"]
+                       "(DJI, MUS, KOR, PRK, nuclear winter) is run with nothing stubbed, results returned and every table saved"]
     return out.finish()
 
 
